@@ -1,4 +1,5 @@
 import GufoSnmp.Lemmas.Minimal
+import GufoSnmp.Lemmas.OidLemmas
 /-!
 # C15 — everything the library encodes, it decodes back unchanged and minimally
 
@@ -56,6 +57,20 @@ theorem octets_roundtrip (c rest : Bytes) (h : c.length < 65536) :
 
 theorem null_roundtrip (rest : Bytes) : fromBer nullDecoder (encNull ++ rest) = .ok ((), rest) :=
   fromBer_encNull rest
+
+/-- **C15.oid_text**: an OID given as text is encoded with minimal base-128 sub-identifiers
+(no leading 0x80 octet) and prints back as the canonical text of the same arcs -/
+theorem oid_text (a0 a1 : Nat) (rest : List Nat) (h0 : a0 ≤ 2) (h1 : a1 ≤ 39)
+    (hr : ∀ a ∈ rest, a < 2 ^ 32) :
+    ∃ b, oidFromStr (Spec.dotted (a0 :: a1 :: rest)) = .ok b ∧ Spec.derOid (a0 :: a1 :: rest) = some b ∧
+      oidToStr b = .ok (Spec.dotted (a0 :: a1 :: rest)) := by
+  have h := oidFromStr_dotted a0 a1 rest h0 h1 hr
+  cases hf : oidFromStr (Spec.dotted (a0 :: a1 :: rest)) with
+  | ok b =>
+    rw [hf] at h; simp only [Outcome.bind, Outcome.ok.injEq] at h
+    exact ⟨b, rfl, h.symm, oidToStr_der a0 a1 rest h0 h1 hr b h.symm⟩
+  | err e => rw [hf] at h; cases h
+  | panic w => rw [hf] at h; cases h
 
 /-- **C15.pdu_roundtrip**: every request PDU -/
 theorem pdu_roundtrip (pdu : Pdu) (enc rest : Bytes) (hr : pdu.InRange) (he : encPdu pdu = some enc)
